@@ -1041,6 +1041,30 @@ def run_code(M, points, const_term):
     """execute emitted code (labels in place) on the reference stack machine of t_vm's semantics"""
     labels = {p[1]: i for i, p in enumerate(points) if p[0] == "label"}
     ex = M.ex
+    # relative jumps (a distance instead of a label; distances count instructions only)
+    if any(p[0] == "op" and p[1] in ("Jmp", "JmpCond") for p in points):
+        pos_of, k = {}, 0
+        for i, p in enumerate(points):
+            if p[0] != "label":
+                pos_of[k] = i
+                k += 1
+        pos_of[k] = len(points)
+        pts, k = [], 0
+        for i, p in enumerate(points):
+            if p[0] == "op" and p[1] in ("Jmp", "JmpCond"):
+                d = p[2][-1].concrete()
+                bits = p[2][-1].bv.size()
+                d = d - (1 << bits) if d >= 1 << (bits - 1) else d
+                if k + 1 + d not in pos_of:
+                    raise Halt("a relative jump leaves the block")
+                labels[("rel", i)] = pos_of[k + 1 + d]
+                when = (variant(ex, p[2][0]) == "True") if p[1] == "JmpCond" else None
+                pts.append(("jmp", ("rel", i)) if p[1] == "Jmp" else ("jmpcond", when, ("rel", i)))
+            else:
+                pts.append(p)
+            if p[0] != "label":
+                k += 1
+        points = pts
     stack, pc, steps = [], 0, 0
 
     def pop():
@@ -1421,6 +1445,8 @@ TARGETS = [
         "`match s { case p: x, case q op r: y, }`: bare patterns compare for equality, patterns are full `||` expressions, a trailing comma is allowed, null when no case matches"),
     tgt("gram_match_nocomma", ["Match", "s", "Add", "t", "LBrace", "Case", "p", "Colon", "x", ("Case", "Comma"), ("Case", "RBrace"), "q", "Colon", "y", "RBrace"],
         "`match s + t { case p: x case q: y }`: cases must be separated by a comma"),
+    tgt("gram_cond_match", ["c", "Question", "a", "Colon", "Match", "y", "LBrace", "Case", "p", "Colon", "b", "Comma", "Case", "_", "Colon", "d", "RBrace"],
+        "`c ? a : match y { case p: b, case _: d }`: a match block as the else branch of a conditional (jumps across a block that was assembled with push())"),
     tgt("gram_paren3", ["LParen", "@a", ("OrOr", "LessThan", "Minus", "Mod"), "@b", "RParen", ("AndAnd", "In", "Add", "Multiply"), "c"], "`(a op1 b) op2 c`: parentheses on the left operand"),
     tgt("gram_paren3_all", ["LParen", "@a", tuple(REPS), "@b", "RParen", tuple(REPS), "c"], "`(a op1 b) op2 c`, 8 x 8 operators", tier="thorough"),
 ]
